@@ -319,7 +319,7 @@ func (r *recorder) genQuoted(t gomodel.M) *jsonread.Value {
 func (r *recorder) godecTrace() {
 	t := r.genType(3, false)
 	v := r.genFor(t, 3)
-	r.execGoDec(t, r.spelling().RenderDoc(v), []string{"Unmarshal", "Decoder", "Decoder.UseNumber"})
+	r.execGoDec(t, r.spelling().RenderDoc(v), []string{"Unmarshal", "Decoder", "Decoder.UseNumber", "Decoder.Strict"})
 }
 
 func (r *recorder) execGoDec(t gomodel.M, text []byte, apis []string) {
@@ -331,7 +331,7 @@ func (r *recorder) execGoDec(t gomodel.M, text []byte, apis []string) {
 	for _, api := range apis {
 		first := r.line + 1
 		p := reflect.New(rt)
-		e := ev{"ev": "godec", "api": api, "un": api != "Decoder", "t": t, "text": bw(text), "panic": false, "err": false, "got": gomodel.M{"g": "nil"}, "gotype": rt.String()}
+		e := ev{"ev": "godec", "api": api, "un": api == "Unmarshal" || api == "Decoder.UseNumber", "strict": api == "Decoder.Strict", "t": t, "text": bw(text), "panic": false, "err": false, "got": gomodel.M{"g": "nil"}, "gotype": rt.String()}
 		func() {
 			defer func() {
 				if x := recover(); x != nil {
@@ -345,6 +345,10 @@ func (r *recorder) execGoDec(t gomodel.M, text []byte, apis []string) {
 				derr = codec.Unmarshal(text, p.Interface())
 			case "Decoder":
 				derr = codec.NewDecoder(bytes.NewReader(text)).Decode(p.Interface())
+			case "Decoder.Strict":
+				d := codec.NewDecoder(bytes.NewReader(text))
+				d.DisallowUnknownFields()
+				derr = d.Decode(p.Interface())
 			default:
 				d := codec.NewDecoder(bytes.NewReader(text))
 				d.UseNumber()
